@@ -309,6 +309,54 @@ theorem heap_expression_views_track (h : Heap) (parent ptr : Nat) (c : List Rat)
   · simp [constraintViewWrite, coeffsAt, store_cell]
   · simp [objectiveViewWrite, coeffsAt, store_cell]
 
+/-- **CQM copies** — `copy.deepcopy(cqm)` (`cyCQM.__deepcopy__` as coded: new object, `new.cppcqm = self.cppcqm` through the C++ copy
+    constructor which `make_shared`s every constraint, both `Variables` deep-copied) and `fix_variables(…, inplace=False)`
+    (`make_cqm(self.cppcqm.fix_variables(…))`, then relabelling of the new object): no existing cell is written; EVERY cell of the result —
+    cy object, C++ CQM, objective, each constraint, `variables`, `constraint_labels` — was allocated by the call; the result holds the
+    (transformed) objective, constraints in order, variables and labels; the receiver reads as before -/
+theorem heap_cqm_copies_fresh (h : Heap) (d q v l o : Nat) (cs : List Nat) (hd : CWf h d q v l o cs) (c : CCall)
+    (hc : ∀ es, c ≠ .inplaceFalse es) :
+    Same h.next h (c.run h d).1 ∧ (∀ a ∈ cfp (c.run h d).1 (c.run h d).2, h.next ≤ a) ∧ cobs (c.run h d).1 d = cobs h d ∧
+    cobs (c.run h d).1 (c.run h d).2 = (match c with
+      | .deepcopy => cobs h d
+      | .fixVariablesCopy ko kc gv => (ko (cobs h d).1, (cobs h d).2.1.map kc, gv (cobs h d).2.2.1, (cobs h d).2.2.2)
+      | .inplaceFalse _ => cobs h d) := by
+  have eobs : cobs h d = (coeffsAt h o, cs.map (coeffsAt h), labelsAt h v, labelsAt h l) := by
+    obtain ⟨d1, d2, _⟩ := hd
+    simp [cobs, cppOf, varsOf, clabelsOf, objectiveOf, constraintsOf, d1, d2]
+  cases c with
+  | deepcopy =>
+    obtain ⟨s1, s2, s3, s4⟩ := cqmRebuild_spec hd id id id id
+    refine ⟨s1, s2, s4, ?_⟩
+    show cobs (cqmRebuild h d id id id id).1 (cqmRebuild h d id id id id).2 = cobs h d
+    rw [s3, eobs]; rfl
+  | fixVariablesCopy ko kc gv =>
+    obtain ⟨s1, s2, s3, s4⟩ := cqmRebuild_spec hd ko kc gv id
+    refine ⟨s1, s2, s4, ?_⟩
+    show cobs (cqmRebuild h d ko kc gv id).1 (cqmRebuild h d ko kc gv id).2 = _
+    rw [s3, eobs]; simp [List.map_map, Function.comp_def]
+  | inplaceFalse es => exact absurd rfl (hc es)
+
+/-- hence a later write to ANY cell of the copy — objective, a constraint, a `Variables` — cannot be a write to a cell of the receiver
+    (all of which are below `h.next`), and vice versa: the two objects have no cell in common -/
+theorem heap_cqm_copies_disjoint (h : Heap) (d q v l o : Nat) (cs : List Nat) (hd : CWf h d q v l o cs) (c : CCall)
+    (hc : ∀ es, c ≠ .inplaceFalse es) (a : Nat) (ha : a ∈ cfp (c.run h d).1 (c.run h d).2) :
+    a ∉ cfp (c.run h d).1 d := by
+  obtain ⟨s1, s2, _, _⟩ := heap_cqm_copies_fresh h d q v l o cs hd c hc
+  have hge := s2 a ha
+  obtain ⟨d1, d2, d3, d4, d5, d6, d7, d8⟩ := hd
+  have c0 : (c.run h d).1.cell d = h.cell d := s1 d d3
+  have cq : (c.run h d).1.cell q = h.cell q := s1 q d4
+  intro hmem
+  simp only [cfp, cppOf, varsOf, clabelsOf, objectiveOf, constraintsOf, c0, cq, d1, d2, List.mem_cons] at hmem
+  rcases hmem with rfl | rfl | rfl | rfl | rfl | hmem
+  · omega
+  · omega
+  · omega
+  · omega
+  · omega
+  · have := d8 a hmem; omega
+
 /-! ### non-vacuity: a concrete heap with a BQM at cells 0–2 and a second one at 3–5 -/
 
 def h0 : Heap := { cell := fun a => match a with
